@@ -344,7 +344,7 @@ func c14Substr(ctx *Ctx, n int) {
 		cs := clustersOf(a.AsString())
 		off := int64(r.Intn(2*len(cs)+5) - len(cs) - 2)
 		ln := int64(r.Intn(len(cs)+4) - 2)
-		if i == 0 { // corpus: minimal witness of the negative-offset / zero-length finding
+		if i == 0 { // corpus: witness of the negative-offset / zero-length defect repaired by 2a9c93a, must pass
 			a, cs, off, ln = sv("a"), []string{"a"}, -1, 0
 		}
 		var offV, lnV cty.Value = cty.NumberIntVal(off), cty.NumberIntVal(ln)
@@ -388,8 +388,7 @@ func c14Substr(ctx *Ctx, n int) {
 		}
 		c.want = sv(o.nfc(strings.Join(rest, "")))
 		if off < 0 && ln == 0 {
-			c.failSig = "substr-negative-offset-zero-length"
-			o.nfc(strings.Join(cs[start:], ""))
+			c.failSig = "substr-negative-offset-zero-length" // regression signature of fix 2a9c93a
 		}
 		runGlue(ctx, c)
 		// never splits a cluster: the result is a run of whole clusters of the input
